@@ -8,13 +8,13 @@ model is tied to objects.go / tengo.go / builtins.go by the exhaustive pair corr
 `harness/cmd/c10` and by the regenerated `BinaryOp` arm inventory.
 -/
 namespace Tengo.Props.C10
-open Tengo.Model
-open Tengo.Model.F64 (cmpInt)
+open Tengo.Model.Val
+open Tengo.Model.Val.F64 (cmpInt)
 
 /-! ### the regenerated tables -/
 
-theorem binop_arms_match : Tengo.Gen.BinaryOpArms.arms = Tengo.Model.binaryOpArms := by decide
-theorem method_overrides_match : Tengo.Gen.BinaryOpArms.overrides = Tengo.Model.methodOverrides := by decide
+theorem binop_arms_match : Tengo.Gen.BinaryOpArms.arms = Tengo.Model.Val.binaryOpArms := by decide
+theorem method_overrides_match : Tengo.Gen.BinaryOpArms.overrides = Tengo.Model.Val.methodOverrides := by decide
 
 /-! ### orderings -/
 
@@ -381,7 +381,7 @@ theorem falsy_table (v : Value) : isFalsy v = falsyTable v := by
 /-- `!x` (vm.go OpLNot) pushes `isFalsy x`; `bool(x)` is its negation. -/
 theorem bool_conv (v : Value) : conv .bool v none = .ok (.bool (!falsyTable v)) := by
   rw [← falsy_table]
-  cases v <;> simp [conv, Tengo.Model.toBool, isFalsy]
+  cases v <;> simp [conv, Tengo.Model.Val.toBool, isFalsy]
 
 example : isFalsy (.float (F64.ofInt 0)) = false ∧ isFalsy (.int 0#64) = true ∧
     isFalsy (.time zeroTimeNs) = true ∧ isFalsy (.err 1 (.int 1#64)) = true := by decide
